@@ -89,6 +89,72 @@ func toYaeVal1(c *TyCtx, v *model.Val, funs FunLookup) *val.Val {
 	panic(fmt.Sprintf("ToYaeVal: kind %s", v.T.K))
 }
 
+// ToYaeValIncremental builds the value the way a host that assembles it step by step does:
+// containers are attached to their parent while still empty and filled afterwards (ListVal.Add,
+// MapVal.Put), and after every step the root is rendered (String()) - an observer between the
+// steps, e.g. logging. The finished value must be indistinguishable from ToYaeVal's.
+func ToYaeValIncremental(v *model.Val, funs FunLookup) *val.Val {
+	c := NewTyCtx()
+	var root *val.Val
+	observe := func() {
+		if root != nil {
+			_ = root.String()
+		}
+	}
+	var build func(v *model.Val) (*val.Val, []func())
+	build = func(v *model.Val) (*val.Val, []func()) {
+		switch v.T.K {
+		case model.TList:
+			l := val.List(c.To(v.T).List(), 0).List()
+			return l.Vl(), []func(){func() {
+				for _, e := range v.L {
+					child, fs := build(e)
+					l.Add(child)
+					observe()
+					for _, f := range fs {
+						f()
+					}
+				}
+			}}
+		case model.TMap:
+			mp := val.Map(c.To(v.T).Map()).Map()
+			return mp.Vl(), []func(){func() {
+				for _, e := range v.M {
+					child, fs := build(e.V)
+					mp.Put(toYaeVal(c, e.K, funs), child)
+					observe()
+					for _, f := range fs {
+						f()
+					}
+				}
+			}}
+		case model.TObj:
+			o := val.Obj(c.To(v.T).Obj()).Obj()
+			var all []func()
+			for i, e := range v.L {
+				child, fs := build(e)
+				o.V[i] = child
+				all = append(all, fs...)
+			}
+			return o.Vl(), all
+		case model.TMaybe:
+			if v.P != nil {
+				child, fs := build(v.P)
+				return val.Just(c.To(v.T.El()), child), fs
+			}
+		}
+		return toYaeVal1(c, v, funs), nil
+	}
+	var fs []func()
+	root, fs = build(v)
+	observe()
+	for _, f := range fs {
+		f()
+	}
+	observe()
+	return root
+}
+
 // Walk is the checked reading of a yae value against an expected type.
 type Walk struct {
 	Problems []string
